@@ -588,6 +588,108 @@ class ReShim:
         return call
 
 
+# ----------------------------------------------------------------------------------------------
+# struct: fixed-width integer formats on symbolic values
+# ----------------------------------------------------------------------------------------------
+
+_STRUCT_CODES = {'B': (1, False), 'b': (1, True), 'H': (2, False), 'h': (2, True), 'I': (4, False), 'i': (4, True), 'L': (4, False),
+                 'l': (4, True), 'Q': (8, False), 'q': (8, True), 'x': (1, None)}
+
+
+def _struct_items(fmt):
+    """[(size, signed|None), ...], byte order; None when the format is outside the modelled subset"""
+    if isinstance(fmt, bytes):
+        fmt = fmt.decode()
+    order = 'big'
+    if fmt[:1] in '<>!=@':
+        if fmt[0] in '=@':
+            return None, None     # native alignment/sizes are not modelled
+        order = 'little' if fmt[0] == '<' else 'big'
+        fmt = fmt[1:]
+    items, num = [], ''
+    for ch in fmt:
+        if ch.isdigit():
+            num += ch
+            continue
+        if ch.isspace():
+            continue
+        if ch not in _STRUCT_CODES:
+            return None, None
+        items += [_STRUCT_CODES[ch]] * (int(num) if num else 1)
+        num = ''
+    return items, order
+
+
+class StructShim:
+    """stand-in for struct / struct.pack / struct.unpack inside the package: concrete arguments go to the real module; symbolic ones are
+    packed/unpacked for standard-size integer codes with explicit byte order, anything else is reported as unsupported"""
+
+    def __init__(self):
+        import struct as _struct
+        self._s = _struct
+        self.error = _struct.error
+
+    def calcsize(self, fmt):
+        return self._s.calcsize(fmt)
+
+    def pack(self, fmt, *vals):
+        if not any(isinstance(v, (SymInt, SymBool)) for v in vals):
+            return self._s.pack(fmt, *vals)
+        items, order = _struct_items(fmt)
+        if items is None:
+            raise Unsupported(f"struct.pack({fmt!r}) on symbolic values")
+        out, vi = [], 0
+        for size, signed in items:
+            if signed is None:
+                out.append(0)
+                continue
+            v = vals[vi]
+            vi += 1
+            if isinstance(v, SymInt):
+                try:
+                    b = v.to_bytes(size, order, signed=bool(signed)) if not signed else None
+                except OverflowError:
+                    raise self._s.error("argument out of range")
+                if b is None:
+                    raise Unsupported("struct.pack of a signed symbolic value")
+                out += list(b.e)
+            else:
+                out += list(int(v).to_bytes(size, order, signed=bool(signed)))
+        return SymBytes(out)
+
+    def unpack(self, fmt, data):
+        if not isinstance(data, SymBytes) or all(isinstance(x, _real_int) for x in data.e):
+            return self._s.unpack(fmt, bytes(data.e) if isinstance(data, SymBytes) else data)
+        items, order = _struct_items(fmt)
+        if items is None:
+            raise Unsupported(f"struct.unpack({fmt!r}) on symbolic bytes")
+        if sum(sz for sz, _ in items) != len(data.e):
+            raise self._s.error("unpack requires a buffer of %d bytes" % sum(sz for sz, _ in items))
+        out, pos = [], 0
+        for size, signed in items:
+            chunk = SymBytes(data.e[pos:pos + size])
+            pos += size
+            if signed is None:
+                continue
+            out.append(IntShim.from_bytes(chunk, order, signed=bool(signed)))
+        return tuple(out)
+
+    def unpack_from(self, fmt, data, offset=0):
+        n = self._s.calcsize(fmt)
+        return self.unpack(fmt, data[offset:offset + n])
+
+    def __getattr__(self, name):
+        real = getattr(self._s, name)
+        if not callable(real) or isinstance(real, type) and name != 'Struct':
+            return real
+
+        def call(*a, **k):
+            if any(isinstance(x, (SymBytes, SymInt)) for x in a):
+                raise Unsupported(f"struct.{name} on symbolic data")
+            return real(*a, **k)
+        return call
+
+
 _STATE = {}
 
 
@@ -634,6 +736,24 @@ def install(ifconv=True, pred=True, merged_nmea=True, crc_ifconv=True):
             elif isinstance(val, _re.Pattern):
                 mod.__dict__[name] = PatternShim(val)
                 nre += 1
+    import struct as _struct
+    nst, sshim = 0, StructShim()
+    for mod in (rm, rr, rh, sw):
+        for name, val in list(vars(mod).items()):
+            if val is _struct:
+                mod.__dict__[name] = sshim
+                nst += 1
+            elif val is _struct.pack:
+                mod.__dict__[name] = sshim.pack
+                nst += 1
+            elif val is _struct.unpack:
+                mod.__dict__[name] = sshim.unpack
+                nst += 1
+            elif val is _struct.unpack_from:
+                mod.__dict__[name] = sshim.unpack_from
+                nst += 1
+    if nst:
+        info['shims'].append(f"struct ({nst} bindings): standard-size integer codes with explicit byte order on symbolic values")
     if nre:
         info['shims'].append(f"re / compiled patterns ({nre} bindings): byte-class sequences decided per start position on symbolic bytes")
     orig = {}
